@@ -4,6 +4,8 @@
 package c03
 
 import (
+	mh "github.com/multiformats/go-multihash"
+	"github.com/ipfs/go-cid"
 	"fmt"
 	"github.com/ucan-wg/go-ucan/pkg/args"
 	"os"
@@ -82,7 +84,7 @@ func run(c *h.Ctx, cs Case) {
 			c.P.Class("twin-keys/" + hookClass)
 		}
 	}
-	if !r.R[8] {
+	if !r.R[8] && !d.Allowed {
 		if how, ok := chain.FlakyAllowed(b, n, cs.Inv.Hook); ok {
 			c.Fail("C03/flaky-loader/unsatisfied-policy-allowed/"+hookClass, "ExecutionAllowed returned nil although statement(s) %v (link, index) are not satisfied by the checked arguments; %s\ncase: %+v", r.FalseStmts, how, cs)
 		}
@@ -276,6 +278,51 @@ func draw(t *rapid.T) Case {
 		li := rapid.IntRange(0, n-1).Draw(t, "twin_link")
 		cs.Links[li].Pol = append(append(pol.Policy{}, cs.Links[li].Pol...), st)
 		cs.Dev = append(cs.Dev, "twin-keys")
+	}
+	if rapid.IntRange(0, 5).Draw(t, "valuetwin") == 2 {
+		// an argument holding a value, and a statement comparing it with a DIFFERENT value that some notion of "the
+		// same" merges with it: a link to the same multihash under another CID version or codec, a string in another
+		// letter case or normal form, the bytes of the string - alone and nested in a list or map. The reference
+		// evaluator says what the statement is (false for ==, true under not); a false one binds like any other.
+		seed := rapid.SliceOfN(rapid.Byte(), 1, 3).Draw(t, "vt_seed")
+		dg, _ := mh.Sum(append([]byte("verif-c03-link/"), seed...), mh.SHA2_256, -1)
+		lk := func(c cid.Cid) val.V { return val.V{K: "link", S: c.String()} }
+		pairs := [][2]val.V{
+			{lk(cid.NewCidV0(dg)), lk(cid.NewCidV1(cid.DagProtobuf, dg))}, {lk(cid.NewCidV0(dg)), lk(cid.NewCidV1(cid.Raw, dg))}, {lk(cid.NewCidV0(dg)), lk(cid.NewCidV1(cid.DagCBOR, dg))},
+			{lk(cid.NewCidV1(cid.DagCBOR, dg)), lk(cid.NewCidV0(dg))}, {lk(cid.NewCidV1(cid.Raw, dg)), lk(cid.NewCidV1(cid.DagCBOR, dg))}, {lk(cid.NewCidV1(cid.DagJSON, dg)), lk(cid.NewCidV1(cid.DagCBOR, dg))},
+			{val.Str("admin"), val.Str("Admin")}, {val.Str("é"), val.Str("e\u0301")}, {val.Str("abc"), val.Bytes([]byte("abc"))}, {val.Str("a"), val.Str("a ")},
+		}
+		pr := rapid.SampledFrom(pairs).Draw(t, "vt_pair")
+		a, b := pr[0], pr[1]
+		switch rapid.IntRange(0, 3).Draw(t, "vt_shape") {
+		case 1:
+			a, b = val.List(a), val.List(b)
+		case 2:
+			a, b = val.Map(val.E("ref", a)), val.Map(val.E("ref", b))
+		case 3:
+			a, b = val.List(val.Int(1), val.Map(val.E("ref", a))), val.List(val.Int(1), val.Map(val.E("ref", b)))
+		}
+		var keep []val.KV
+		for _, e := range cs.Inv.Args {
+			if e.K != "ref" {
+				keep = append(keep, e)
+			}
+		}
+		keep = append(keep, val.KV{K: "ref", V: a})
+		cs.Inv.Args = keep
+		if cs.Inv.Hook != nil {
+			cs.Inv.Hook.Args = append([]val.KV{}, keep...)
+		}
+		st := pol.Stmt{Op: "==", Sel: sel.Sel{{Kind: "field", Name: "ref"}}, Lit: &b}
+		switch rapid.IntRange(0, 3).Draw(t, "vt_wrap") {
+		case 1:
+			st = pol.Stmt{Op: "not", Sub: []pol.Stmt{st}}
+		case 2:
+			st = pol.Stmt{Op: "and", Sub: []pol.Stmt{st}}
+		}
+		li := rapid.IntRange(0, n-1).Draw(t, "vt_link")
+		cs.Links[li].Pol = append(append(pol.Policy{}, cs.Links[li].Pol...), st)
+		cs.Dev = append(cs.Dev, "value-twin")
 	}
 	eff := cs.Inv.Args
 	if cs.Inv.Hook != nil {
